@@ -4,15 +4,18 @@ import (
 	"fmt"
 	"math/rand/v2"
 	"net/http"
+	"net/url"
 	"os"
 	"path/filepath"
 	"runtime"
+	"strings"
 	"testing"
 	"time"
 
 	"github.com/bartventer/httpcache/store/driver"
 	"github.com/bartventer/httpcache/store/fscache"
 
+	"verif/harness/oracle"
 	"verif/harness/run"
 	"verif/harness/sim"
 )
@@ -146,10 +149,75 @@ type c09Case struct {
 	hdr      c09HeaderPair
 }
 
+// c09Respell applies a random composition of RFC 3986 6.2.2/6.2.3
+// equivalence-preserving transformations to a URI given by its parts.
+func c09Respell(r *rand.Rand, scheme, host, port, path, query string) string {
+	if chance(r, 0.3) {
+		scheme = strings.ToUpper(scheme)
+	}
+	if chance(r, 0.4) {
+		host = strings.ToUpper(host)
+	}
+	if port == "" {
+		switch r.IntN(4) {
+		case 0:
+			port = map[string]string{"http": ":80", "https": ":443"}[strings.ToLower(scheme)]
+		case 1:
+			port = ":"
+		}
+	}
+	if chance(r, 0.4) { // escape case
+		var b strings.Builder
+		for i := 0; i < len(path); i++ {
+			if path[i] == '%' && i+2 < len(path) {
+				b.WriteString(strings.ToLower(path[i : i+3]))
+				i += 2
+			} else {
+				b.WriteByte(path[i])
+			}
+		}
+		path = b.String()
+	}
+	if chance(r, 0.4) { // unreserved characters escaped
+		path = strings.Replace(path, "~", pick(r, []string{"%7E", "%7e"}), 1)
+		path = strings.Replace(path, "q", "%71", 1)
+		if query != "" && chance(r, 0.5) {
+			query = strings.Replace(query, "v", "%76", 1)
+		}
+	}
+	if chance(r, 0.3) && strings.Count(path, "/") >= 2 { // dot segments
+		i := strings.LastIndexByte(path, '/')
+		path = path[:i] + pick(r, []string{"/.", "/x/..", "/x/y/../.."}) + path[i:]
+	}
+	if path == "/" && chance(r, 0.3) {
+		path = ""
+	}
+	u := scheme + "://" + host + port + path
+	if query != "" {
+		u += "?" + query
+	}
+	if chance(r, 0.3) {
+		u += "#frag"
+	}
+	return u
+}
+
+func c09RandomPair(r *rand.Rand) [2]string {
+	scheme := pick(r, []string{"http", "https"})
+	host := pick(r, []string{"a.example", "api.a.example", "[::1]", "[2001:db8::1]", "127.0.0.1"})
+	port := pick(r, []string{"", "", ":8080", ":8443"})
+	path := pick(r, []string{"/", "/p/q", "/~u/q", "/p%2Fq/r", "/p/%C3%A9", "/a;b/c=d", "/p/q/", "/long/" + longSeg(300)})
+	query := pick(r, []string{"", "", "k=v", "k=v&x=%C3%A9", "k=a+b"})
+	return [2]string{c09Respell(r, scheme, host, port, path, query), c09Respell(r, scheme, host, port, path, query)}
+}
+
 func genC09(r *rand.Rand) c09Case {
 	fp := c09FreshPool()
 	f := pick(r, fp)
 	up := pick(r, c09URIPairs)
+	if chance(r, 0.6) {
+		up = c09RandomPair(r)
+	}
 	if chance(r, 0.5) {
 		up[0], up[1] = up[1], up[0]
 	}
@@ -226,6 +294,12 @@ func c09Run(r *run.Runner, c c09Case) {
 		return Render(&spec, uc.Enter, uc.Serial)
 	}})
 	defer w.Close()
+	if ua, e1 := url.Parse(c.URLa); e1 == nil {
+		if ub, e2 := url.Parse(c.URLb); e2 == nil && oracle.CompareURI(ua, ub) != oracle.Equivalent {
+			r.Inconclusive("generator produced a non-equivalent URI pair: " + c.URLa + " | " + c.URLb)
+			return
+		}
+	}
 	first := w.Do(sim.ReqSpec{URL: c.URLa, Header: c.hdr.A})
 	if first.Header == nil || first.BodySerial() != "0.0" && c.Status != 0 {
 		r.Inconclusive("first exchange failed: " + first.Summary())
@@ -293,4 +367,143 @@ func c09Run(r *run.Runner, c c09Case) {
 		r.Sample(map[string]any{"case": c, "history": obs})
 	}
 	_ = filepath.Join
+}
+
+
+// ---- variants part: a small reference model of "must be served" ------------
+
+type c09vStep struct {
+	DtS     float64 `json:"dt_s"`
+	Variant int     `json:"variant"`
+	Reload  bool    `json:"reload,omitempty"` // Cache-Control: no-cache
+	OnCond  string  `json:"on_cond"`          // how the origin answers a conditional request: 304 | 200
+}
+
+type c09vCase struct {
+	Lifetimes []int64    `json:"lifetimes"`
+	Vary      string     `json:"vary"`
+	Backend   string     `json:"backend"`
+	Steps     []c09vStep `json:"steps"`
+}
+
+func genC09v(r *rand.Rand) c09vCase {
+	c := c09vCase{Vary: pick(r, []string{"X-A", "X-A", "X-A, X-B", "Accept-Encoding, X-A"}), Backend: pick(r, []string{"mem", "mem", "mem", "fs", "fsaes-reopen"})}
+	nv := 2 + r.IntN(3)
+	for i := 0; i < nv; i++ {
+		c.Lifetimes = append(c.Lifetimes, pick(r, []int64{10, 30, 60, 1000, 100000}))
+	}
+	n := 8 + r.IntN(20)
+	for i := 0; i < n; i++ {
+		c.Steps = append(c.Steps, c09vStep{DtS: pick(r, []float64{0, 1, 5, 9, 12, 25, 31, 58, 70, 500, 2000}), Variant: r.IntN(nv), Reload: chance(r, 0.15), OnCond: pick(r, []string{"304", "304", "200"})})
+	}
+	return c
+}
+
+func TestC09Variants(t *testing.T) {
+	r := run.Start(t, "C09", "variants")
+	defer r.Finish()
+	n := r.Tiered(1500, 40000)
+	for i := 0; i < n; i++ {
+		if !r.Mine(i) {
+			continue
+		}
+		c := genC09v(r.Rand(i))
+		r.Begin(i, c)
+		if fail := r.Bubble(func() { c09vRun(r, c) }); fail != "" {
+			r.Violation("bubble", "bubble-failure", "bubble failed: "+fail, c)
+		}
+		if i%50 == 0 {
+			runtime.GC()
+		}
+	}
+	r.Done()
+}
+
+func c09vRun(r *run.Runner, c c09vCase) {
+	var dir string
+	var inner driver.Conn
+	if c.Backend != "mem" {
+		dir = scratchDir()
+		defer os.RemoveAll(dir)
+		var err error
+		if inner, err = openBackend(c.Backend, dir); err != nil {
+			r.Inconclusive("backend: " + err.Error())
+			return
+		}
+	}
+	onCond := "304"
+	w := sim.NewWorld(sim.WorldOpt{Inner: inner, Handler: func(uc *sim.UpCall, req *http.Request) *sim.Reply {
+		var v int
+		fmt.Sscanf(req.Header.Get("X-A"), "v%d", &v)
+		L := c.Lifetimes[v%len(c.Lifetimes)]
+		if uc.Conditional() && onCond == "304" {
+			return Render(&RespSpec{Status: 304, ETag: fmt.Sprintf(`"v%d"`, v), Vary: []string{c.Vary}}, uc.Enter, uc.Serial)
+		}
+		return Render(&RespSpec{Status: 200, CC: []string{"max-age=" + itoa(L)}, ETag: fmt.Sprintf(`"v%d"`, v), Vary: []string{c.Vary}, BodySize: 10}, uc.Enter, uc.Serial)
+	}})
+	defer w.Close()
+	type st struct {
+		tok        string
+		freshUntil time.Time
+		has        bool
+	}
+	model := make([]st, len(c.Lifetimes))
+	judged := 0
+	for si, s := range c.Steps {
+		if s.DtS > 0 {
+			time.Sleep(time.Duration(s.DtS * float64(time.Second)))
+		}
+		if c.Backend == "fsaes-reopen" && si%5 == 4 {
+			if ni, err := openBackend(c.Backend, dir); err == nil {
+				w.Reopen(ni)
+			}
+		}
+		h := map[string][]string{"X-A": {fmt.Sprintf("v%d", s.Variant)}, "X-B": {"b"}, "Accept-Encoding": {"gzip"}}
+		if s.Reload {
+			h["Cache-Control"] = []string{"no-cache"}
+		}
+		onCond = s.OnCond
+		now := time.Now()
+		m := &model[s.Variant]
+		must := m.has && !s.Reload && now.Add(2*time.Second).Before(m.freshUntil)
+		ex := w.Do(sim.ReqSpec{URL: "http://a.example/c9v", Header: h})
+		r.AddEvaluations(1)
+		if must {
+			judged++
+			r.Count("must_serve_checks", 1)
+			sig := fmt.Sprintf("vary=%s,backend=%s", c.Vary, c.Backend)
+			switch {
+			case ex.Header == nil:
+				r.Violation("not-served", sig, "request failed: "+ex.Summary(), exSummaries(w))
+			case len(ex.Calls()) > 0:
+				r.Violation("origin-contacted", sig, fmt.Sprintf("variant %d is stored (token %s) and fresh for another %v, but the origin was contacted; %s", s.Variant, m.tok, m.freshUntil.Sub(now), ex.Summary()), exSummaries(w))
+			case ex.BodySerial() != m.tok:
+				r.Violation("wrong-response", sig, fmt.Sprintf("variant %d: expected stored token %s; %s", s.Variant, m.tok, ex.Summary()), exSummaries(w))
+			}
+		}
+		// update the model from the upstream log (not from the cache's output)
+		L := sec(c.Lifetimes[s.Variant])
+		for _, uc := range ex.Calls() {
+			if uc.Reply == nil || uc.Reply.Err != nil {
+				continue
+			}
+			switch uc.Reply.Status {
+			case 200:
+				*m = st{tok: uc.Serial, freshUntil: uc.Exit.Add(L), has: true}
+			case 304:
+				if m.has {
+					m.freshUntil = uc.Exit.Add(L)
+				}
+			}
+		}
+		if len(w.Exchanges) > 6 {
+			w.Exchanges = w.Exchanges[len(w.Exchanges)-6:]
+		}
+	}
+	if judged > 0 {
+		r.Nontrivial(fmt.Sprintf("%+v", c))
+		if r.WantSample() {
+			r.Sample(map[string]any{"case": c, "must_serve_checks": judged, "tail": exSummaries(w)})
+		}
+	}
 }
